@@ -9,9 +9,9 @@ import (
 )
 
 // The task factories of the three agents, exactly as runAgentAuditor / runAgentMonitor / runAgentPublisher build them.
-func VMembershipFactory() gossip.TaskFactory  { return membershipFactory{log.L().Named("verif.auditor")} }
-func VIncrementalFactory() gossip.TaskFactory { return incrementalFactory{log.L().Named("verif.monitor")} }
-func VPublisherFactory() gossip.TaskFactory   { return publisherFactory{log.L().Named("verif.publisher")} }
+func VMembershipFactory() gossip.TaskFactory  { return &membershipFactory{log: log.L().Named("verif.auditor")} }
+func VIncrementalFactory() gossip.TaskFactory { return &incrementalFactory{log: log.L().Named("verif.monitor")} }
+func VPublisherFactory() gossip.TaskFactory   { return &publisherFactory{log: log.L().Named("verif.publisher")} }
 
 // VRunRestore runs the `qed restore` command body (runRestore) with the given parameters.
 func VRunRestore(backupDir string, backupID uint32, restorePath string) error {
